@@ -40,12 +40,13 @@ const (
 	pOne
 	pUniform
 	pNearMax
+	pPow2
 	nPatterns
 )
 
 func genPattern(t *rapid.T, label string) int {
 	// uniform filler is the most frequent single class but patterned words dominate together
-	return rapid.SampledFrom([]int{pZero, pZero, pMax, pMax, pHalf, pHalfM1, pPow, pPowM1, pSmall, pOne, pUniform, pUniform, pUniform, pUniform, pNearMax}).Draw(t, label)
+	return rapid.SampledFrom([]int{pZero, pZero, pMax, pMax, pHalf, pHalfM1, pPow, pPowM1, pSmall, pOne, pUniform, pUniform, pUniform, pUniform, pNearMax, pPow2}).Draw(t, label)
 }
 
 func patternWord(t *rapid.T, p int, st *uint64) uint64 {
@@ -68,6 +69,9 @@ func patternWord(t *rapid.T, p int, st *uint64) uint64 {
 		return 1
 	case pNearMax:
 		return Base - 1 - splitmix64(st)%1000
+	case pPow2:
+		// binary edges inside a decimal word: differences and sums of such words wrap 64-bit arithmetic
+		return []uint64{1 << 63, 1 << 62, 1<<63 - 1, 1 << 32, 1<<63 + 1, 1<<62 + 1<<61}[splitmix64(st)%6]
 	}
 	return splitmix64(st) % Base
 }
